@@ -1,6 +1,6 @@
 (* Props/C19.v -- property C19: saving reports sink failures and ignores sink chunking.
-   Statements only; proofs live in Proofs/SinkProofs.v, Proofs/SaveStateProofs.v, Proofs/SinkSaveProofs.v,
-   Proofs/SinkBufProofs.v.
+   Statements only; proofs live in Proofs/SinkProofs.v, Proofs/SaveStateProofs.v, Proofs/SaveStateIncProofs.v,
+   Proofs/SinkSaveProofs.v, Proofs/SinkBufProofs.v, Proofs/ComposeSink.v, Proofs/ComposeSinkInc.v.
 
    Reading guide.  [calls] is the list of buffers the save path hands to write_all, one after the
    other, each followed by `?` -- ANY list: the theorems do not depend on how the output is cut into
@@ -9,7 +9,7 @@
    [run qwrite_all] is the same for sinks whose answers are attached to stream positions (what the
    harness drives the real save_to with). *)
 From LV Require Import Base.Bytes Model.Obj Model.Sink Model.SaveState Model.SinkBuf
-  Proofs.SinkProofs Proofs.SaveStateProofs Proofs.SinkSaveProofs Proofs.SinkBufProofs.
+  Proofs.SinkProofs Proofs.SaveStateProofs Proofs.SaveStateIncProofs Proofs.SinkSaveProofs Proofs.SinkBufProofs.
 From LV Require Model.Save.
 
 Local Open Scope N_scope.
@@ -115,6 +115,77 @@ Proof. exact failed_save_residue. Qed.
 Theorem C19_raise_idempotent :
   forall top st, raise_max_id top (raise_max_id top st) = raise_max_id top st.
 Proof. exact raise_idem. Qed.
+
+(* (6-inc) the same for IncrementalDocument::save_to.  [istate] = what save_internal can reach of the IncrementalDocument:
+   the previous bytes (bytes_documents; prev_documents is only read, for the format [mode]) and (max_id, trailer) of
+   new_document.  [save_inc_with]: the previous bytes around the counter (an error returns at once), [pre] (separator
+   newline, header, mark, objects, and the xref table in the table format), the mutation of new_document, [post].
+   For every sound reading of the sink, every script, every [pre] / [post] / [ids]:
+     * the previous bytes are unchanged;
+     * result and delivered bytes are those of [run_inc], the pipeline of C19_incremental_is_plain;
+     * the IncrementalDocument is the ORIGINAL -- there is no raise of max_id in this function, [raise_max_id None] is the
+       identity -- and then the result is an error and fewer than |prev| + |pre| bytes were delivered, or the original with
+       new_document mutated exactly as by a successful save, and then at least |prev| + |pre| bytes were delivered.
+       A successful save always mutates (first disjunct: r <> WOk). *)
+Theorem C19_incremental_failed_save_residue :
+  forall wa, wa_sound wa ->
+  forall mode ids pre post st s r d st',
+    save_inc_with wa mode ids pre post st s = (r, d, st') ->
+    is_prev st' = is_prev st /\
+    (r, d) = rd (run_inc wa (is_prev st) (pre ++ post) s) /\
+    (((length d < length (is_prev st) + length (concat pre))%nat /\ st' = st /\ r <> WOk) \/
+     ((length (is_prev st) + length (concat pre) <= length d)%nat /\
+      st' = {| is_prev := is_prev st; is_new := mutate mode ids (is_new st) |})).
+Proof. exact incremental_failed_save_residue. Qed.
+
+(* table format (previous document has a cross-reference table): the calls of an incremental save are the previous
+   bytes, what is written before the mutation point -- a function of the previous bytes (separator) and of
+   new_document.max_id (Xref::new(max_id + 1)), not of the trailer -- and what is written from the mutated new_document.
+   After a failed (or successful) save a re-save issues EXACTLY the calls, hence the bytes, of a pristine save. *)
+Theorem C19_incremental_resave :
+  (forall st, raise_max_id None st = st) /\
+  (forall pre_of post_of st,
+      inc_table_calls pre_of post_of st =
+      is_prev st :: pre_of (is_prev st) (s_max_id (is_new st)) ++ post_of (mutate_table (is_new st))) /\
+  (forall pre_of post_of st st',
+      st' = st \/ st' = {| is_prev := is_prev st; is_new := mutate_table (is_new st) |} ->
+      inc_table_calls pre_of post_of st' = inc_table_calls pre_of post_of st).
+Proof. split; [reflexivity|]. split; [reflexivity | exact inc_resave_table_same_calls]. Qed.
+
+(* stream format: every save that reaches write_cross_reference_stream consumes one object number of new_document
+   (n saves: max_id + n, previous bytes unchanged), so the cross-reference stream object of a re-save has another number,
+   Size and Index.  Everything before it -- the previous bytes, separator, header, mark and all objects, at the same
+   offsets -- is identical to a pristine save.  PARTIAL in that the bytes of the cross-reference stream object itself
+   are not compared; what the re-saved file LOADS to is C19_incremental_resave_after_failure_loads below. *)
+Theorem C19_incremental_resave_stream_partial :
+  (forall ids st n,
+      is_prev (iter n (inc_mutate XStream ids) st) = is_prev st /\
+      s_max_id (is_new (iter n (inc_mutate XStream ids) st)) = s_max_id (is_new st) + N.of_nat n) /\
+  (forall pre post_of ids st,
+      inc_stream_calls pre post_of ids st = is_prev st :: pre (is_prev st) ++ post_of (mutate_stream ids (is_new st))) /\
+  (forall pre post_of ids st,
+      firstn (length (is_prev st) + length (concat (pre (is_prev st)))) (concat (inc_stream_calls pre post_of ids st)) =
+      is_prev st ++ concat (pre (is_prev st))) /\
+  (forall pre post_of ids st st', is_prev st' = is_prev st ->
+      let n := (length (is_prev st) + length (concat (pre (is_prev st))))%nat in
+      firstn n (concat (inc_stream_calls pre post_of ids st')) = firstn n (concat (inc_stream_calls pre post_of ids st))).
+Proof.
+  split; [exact inc_stream_residue_after_n|]. split; [reflexivity|].
+  split; [exact inc_stream_body | exact inc_resave_stream_same_body].
+Qed.
+
+(* non-vacuity: previous bytes with junk before the header and no final newline; failure inside the previous bytes,
+   inside the objects (both: untouched), inside the cross-reference stream object (mutated); a healthy table save *)
+Theorem C19_example_incremental_residue :
+  save_inc_with qwrite_all XStream [1; 2; 4] ex_ipre [bs "xrefstream"] ex_istate [Accept 9; Fail EStorageFull]
+  = (WErr EStorageFull, bs "junk%PDF-", ex_istate) /\
+  save_inc_with qwrite_all XStream [1; 2; 4] ex_ipre [bs "xrefstream"] ex_istate [Accept 30; Fail EBrokenPipe]
+  = (WErr EBrokenPipe, ex_iprev ++ [x0a] ++ bs "%PDF-1.", ex_istate) /\
+  save_inc_with write_all XStream [1; 2; 4] ex_ipre [bs "xrefstream"] ex_istate [Accept 100; Accept 1; Accept 8; Accept 7; Accept 3; Zero]
+  = (WErr EWriteZero, ex_iprev ++ [x0a] ++ bs "%PDF-1.5objectsxre", inc_mutate XStream [1; 2; 4] ex_istate) /\
+  save_inc_with write_all XTable [1; 2; 4] ex_ipre [bs "trailer"] ex_istate []
+  = (WOk, ex_iprev ++ [x0a] ++ bs "%PDF-1.5objectstrailer", inc_mutate XTable [] ex_istate).
+Proof. exact ex_inc_residue. Qed.
 
 (* both readings of a sink are sound, so (6) applies to each *)
 Theorem C19_sinks_sound : wa_sound write_all /\ wa_sound qwrite_all.
@@ -301,6 +372,10 @@ Print Assumptions C19_incremental_is_plain.
 Print Assumptions C19_example_header_offset.
 Print Assumptions C19_failed_save_residue.
 Print Assumptions C19_raise_idempotent.
+Print Assumptions C19_incremental_failed_save_residue.
+Print Assumptions C19_incremental_resave.
+Print Assumptions C19_incremental_resave_stream_partial.
+Print Assumptions C19_example_incremental_residue.
 Print Assumptions C19_sinks_sound.
 Print Assumptions C19_resave_table.
 Print Assumptions C19_resave_stream_partial.
@@ -380,3 +455,102 @@ End ResaveLoads.
 Print Assumptions C19_resave_after_failure_loads.
 Print Assumptions C19_resave_after_failed_save_path_loads.
 Print Assumptions C19_example_resave_loads.
+
+(* ------------------------------------------------------------------------------------------
+   (10) the same for IncrementalDocument::save_to: composition of (6-inc) with C07's byte-level reload
+   (Proofs/C07BytesHistory.v; proofs in Proofs/ComposeSinkInc.v).
+   [lopdf_history F xs fmt objs]: F is a file written by Document::save followed by any number of
+   IncrementalDocument::save, xs its startxref value, objs the objects it loads to (C07_history_loads).  The
+   IncrementalDocument [s] (Model/Incremental.v) was made from those bytes and from what load returned for them
+   (bytes_documents = F, prev_documents = pd with xref_start xs and format fmt) and its new_document [nd] is in the
+   domain of one update step of C07 ([upd_dom]: numbers sorted and <= max_id, objects / trailer well formed, not in the
+   known class deep-nesting, valid binary mark, Prev = xs, no XRefStm, no Encrypt; max_id not below the previous
+   document's; every new identifier is a previous identifier or carries a new number) -- the hypotheses of
+   C07's hist_update, unchanged.  The format of the save is the previous document's ([mode_of fmt]).
+   [with_inc_state s st']: the IncrementalDocument afterwards (previous bytes, previous document, version / mark /
+   objects of new_document as before; max_id and trailer of new_document = the state the save left).
+   [inc_fits]: stream format only, one spare object number (max_id + 3 < 2^32; C07's rev_dom keeps max_id + 2 < 2^32 and a
+   save that reached the cross-reference stream has consumed one).
+   Conclusion, for every sink script, every cut into calls, ANY [ids]: the re-save succeeds; its file is again a step of
+   the history (so it loads and can be updated again); the loaded objects are [step_objs fmt objs nd' ..] = the overlay
+   of the new objects over the previous ones, in the stream format followed by the new cross-reference stream object --
+   IDENTICAL to what a pristine incremental save loads to in the table format, and identical apart from that last object
+   (its number is max_id' + 1, max_id <= max_id' <= max_id + 1) in the stream format: the same [user_objects].
+   ------------------------------------------------------------------------------------------ *)
+From LV Require Model.Incremental Proofs.SaveProofs Proofs.StrictIncrementalProofs Proofs.C07BytesTable Proofs.C07BytesStream
+  Proofs.C07BytesHistory Proofs.C07BytesExample Proofs.ComposeSinkInc.
+Section IncResaveLoads.
+  Import Model.Xref Model.Loader Spec.SaveSpec Proofs.ComposeSink Model.Incremental Proofs.StrictIncrementalProofs
+    Proofs.C07BytesTable Proofs.C07BytesStream Proofs.C07BytesHistory Proofs.ComposeSinkInc.
+
+  Theorem C19_incremental_resave_after_failure_loads :
+    forall F xs fmt objs pd s,
+      let nd := xd_doc (i_new s) in
+      lopdf_history F xs fmt objs ->
+      load F = LOk pd (xtype_of fmt) ->
+      i_bytes s = F -> i_prev s = {| xd_doc := pd; xd_start := xs; xd_type := fmt |} ->
+      upd_dom xs nd ->
+      d_max_id pd <= d_max_id nd ->
+      Forall (fun io : oid * obj => In (fst io) (map fst (d_objects pd)) \/ ~ In (fst (fst io)) (SaveProofs.obj_numbers (d_objects pd)))
+             (d_objects nd) ->
+    forall wa, wa_sound wa ->
+    forall ids pre post sc r delivered ist',
+      save_inc_with wa (mode_of fmt) ids pre post (inc_state_of s) sc = (r, delivered, ist') ->
+      inc_fits (mode_of fmt) nd ->
+      let s' := with_inc_state s (is_new ist') in
+      let nd' := xd_doc (i_new s') in
+      Save.blen (io_bytes (inc_save s')) < Save.u32_mod ->
+      is_prev ist' = i_bytes s' /\ i_prev s' = i_prev s /\
+      io_status (inc_save s') = IncOk /\
+      lopdf_history (io_bytes (inc_save s')) (io_start (inc_save s')) fmt
+                    (step_objs fmt objs nd' (Save.blen (F ++ inc_lines nd'))) /\
+      (exists v m t mx,
+         load (io_bytes (inc_save s')) =
+         LOk {| d_version := v; d_binary_mark := m; d_trailer := t;
+                d_objects := step_objs fmt objs nd' (Save.blen (F ++ inc_lines nd')); d_max_id := mx |} (xtype_of fmt)) /\
+      user_objects (step_objs fmt objs nd' (Save.blen (F ++ inc_lines nd'))) =
+      user_objects (step_objs fmt objs nd (Save.blen (F ++ inc_lines nd))) /\
+      (fmt = Save.XTable ->
+         step_objs fmt objs nd' (Save.blen (F ++ inc_lines nd')) = step_objs fmt objs nd (Save.blen (F ++ inc_lines nd))) /\
+      (fmt = Save.XStream ->
+         step_objs fmt objs nd' (Save.blen (F ++ inc_lines nd')) =
+         overlay objs (norm_objects (d_objects nd)) ++ [xso nd' (Save.blen (F ++ inc_lines nd'))] /\
+         fst (fst (xso nd' (Save.blen (F ++ inc_lines nd')))) = d_max_id nd' + 1) /\
+      d_max_id nd <= d_max_id nd' /\ d_max_id nd' <= d_max_id nd + 1.
+  Proof.
+    intros F xs fmt objs pd s nd H1 H2 H3 H4 H5 H6 H7 wa Hwa.
+    exact (inc_resave_after_failure_loads F xs fmt objs pd s H1 H2 H3 H4 H5 H6 H7 wa Hwa).
+  Qed.
+
+  (* non-vacuity, computed (Proofs/C07BytesExample.v's stream-format update [ex_ss]: objects 1 2, cross-reference stream 3;
+     object 1 replaced, object 4 added): an incremental save_to that meets Ok(0) inside the cross-reference stream object
+     leaves max_id 4 -> 5 and Size 6 in new_document (Prev kept); every hypothesis above holds; the re-saved file loads to
+     objects 1 2 3 4 and the cross-reference stream object under number 6 (pristine save: 5), same user objects *)
+  Theorem C19_example_incremental_resave_loads :
+    let s := C07BytesExample.ex_ss in
+    let F := C07BytesExample.ex_Fs in
+    let objs := d_objects (reloaded Save.XStream C07BytesExample.ex_d) in
+    lopdf_history F (Save.blen (SaveProofs.body_of C07BytesExample.ex_d)) Save.XStream objs /\
+    load F = LOk (reloaded Save.XStream C07BytesExample.ex_d) XTStream /\
+    upd_dom (Save.blen (SaveProofs.body_of C07BytesExample.ex_d)) (xd_doc (i_new s)) /\
+    inc_fits XStream (xd_doc (i_new s)) /\
+    save_inc_with write_all XStream ex_inc_ids [[x0a]; bs "%PDF-1.5"; bs "objects"] [bs "xrefstream"]
+      (inc_state_of s) [Accept 1000; Accept 1; Accept 8; Accept 7; Accept 3; Zero]
+      = (WErr EWriteZero, F ++ [x0a] ++ bs "%PDF-1.5objectsxre", {| is_prev := F; is_new := ex_inc_left |}) /\
+    d_max_id (xd_doc (i_new s)) = 4 /\ d_max_id (xd_doc (i_new ex_inc_s')) = 5 /\
+    dict_get (d_trailer (xd_doc (i_new ex_inc_s'))) Save.K_Prev = dict_get (d_trailer (xd_doc (i_new s))) Save.K_Prev /\
+    dict_get (d_trailer (xd_doc (i_new ex_inc_s'))) K_Size = Some (OInt 6) /\
+    Save.blen (io_bytes (inc_save ex_inc_s')) < Save.u32_mod /\
+    io_status (inc_save ex_inc_s') = IncOk /\
+    (exists d', load (io_bytes (inc_save ex_inc_s')) = LOk d' XTStream /\
+                SaveProofs.obj_numbers (d_objects d') = [1; 2; 3; 4; 6] /\
+                lookup (d_objects d') (1, 0) = Some C07BytesExample.ex_cat2 /\
+                lookup (d_objects d') (4, 0) = Some (OStr (bs "new") false) /\
+                user_objects (d_objects d') =
+                user_objects (step_objs Save.XStream objs (xd_doc (i_new s)) (Save.blen (F ++ inc_lines (xd_doc (i_new s)))))) /\
+    SaveProofs.obj_numbers (step_objs Save.XStream objs (xd_doc (i_new s)) (Save.blen (F ++ inc_lines (xd_doc (i_new s))))) = [1; 2; 3; 4; 5].
+  Proof. exact ex_inc_resave. Qed.
+End IncResaveLoads.
+
+Print Assumptions C19_incremental_resave_after_failure_loads.
+Print Assumptions C19_example_incremental_resave_loads.
